@@ -1,0 +1,21 @@
+//go:build verif
+// +build verif
+
+package keystore
+
+import "massnet.org/mass-wallet/masswallet/keystore/hdkeychain"
+
+// Exports of the unexported BIP-44 path helpers of hd.go for the verification
+// harness (/verif, property C14). Compiled only with the build tag "verif".
+
+func VerifDeriveCoinTypeKey(master *hdkeychain.ExtendedKey, purpose, coin uint32) (*hdkeychain.ExtendedKey, error) {
+	return deriveCoinTypeKey(master, KeyScope{Purpose: purpose, Coin: coin})
+}
+
+func VerifDeriveAccountKey(coinTypeKey *hdkeychain.ExtendedKey, account uint32) (*hdkeychain.ExtendedKey, error) {
+	return deriveAccountKey(coinTypeKey, account)
+}
+
+func VerifCheckBranchKeys(acctKey *hdkeychain.ExtendedKey) error {
+	return checkBranchKeys(acctKey)
+}
